@@ -31,6 +31,9 @@ pub fn compare(g: &Generated, directs: &[Vec<Stmt>], quantum: usize) -> Result<(
             let _ = u;
             return Err(Ok("outside the well-defined fragment"));
         }
+        if !m.uncertain.is_empty() {
+            return Err(Ok("DEFtype with variables of other letters already stored (left open by the manual)"));
+        }
     }
     if m.flags.fuzzy_eq {
         return Err(Ok("float equality inside the undocumented tolerance / NaN comparison"));
